@@ -397,6 +397,18 @@ func (f *functionCaller) CallFunction(name string, arguments []interface{}, intr
 	if !ok {
 		return nil, errors.New("unknown function: " + name)
 	}
+	// The handlers only know []interface{}; convert user provided typed
+	// slices ([]string, []MyStruct, ...) before type checking.
+	for i, arg := range arguments {
+		if _, ok := arg.([]interface{}); !ok && isSliceType(arg) {
+			v := reflect.ValueOf(arg)
+			converted := make([]interface{}, v.Len())
+			for j := range converted {
+				converted[j] = interfaceOf(v.Index(j))
+			}
+			arguments[i] = converted
+		}
+	}
 	resolvedArgs, err := entry.resolveArgs(arguments)
 	if err != nil {
 		return nil, err
